@@ -152,7 +152,13 @@ func stressOnce(t *testing.T, id int, rnd *rand.Rand) StressRec {
 					// the head that was read may be pruned by the racing deleter before it is read again (the observer can be
 					// descheduled for long on a loaded machine): a failed re-read counts only if the header is still at or
 					// above the tail afterwards (the tail only moves up)
+					// ... and while a deletion is under way the tail pointer still names the old tail although the headers
+					// above it are being removed (it moves once, at the end): heights the deleter may prune (up to n/4) are
+					// not judged at all when a deleter runs
 					stillThere := func() bool {
+						if withDel && int(hd.Height()) <= n/4 {
+							return false
+						}
 						tl, terr := st.Tail(bg)
 						return terr == nil && tl.Height() <= hd.Height()
 					}
